@@ -20,6 +20,7 @@ func checkC19(c *Ctx) {
 	c.checkTagWrites()
 	c.checkSearchScope()
 	c.checkRewriteOnlyIndexed()
+	c.checkTagDeltaOrder()
 	c.checkOwnerOnlyOps()
 }
 
